@@ -6,7 +6,7 @@
    translator refuses both (fail closed): no term, no tie; they stay covered by the kernels k_cache_store / k_cache_covers /
    k_cache_root_overwrites and the correspondence runs cache.histories. *)
 From V Require Import Prelude.Base Prelude.PyAst Prelude.PyAstMut Prelude.PyWorld gen.Kernels gen.K_cache gen.F_cache.
-From V Require Import Model.Types Model.Crypto Model.Gkdi Model.Client Flow.World_cache.
+From V Require Import Model.Types Model.Crypto Model.Gkdi Model.Kek Model.Client Flow.World_cache.
 Local Open Scope string_scope.
 Local Open Scope list_scope.
 Local Open Scope Z_scope.
@@ -101,3 +101,38 @@ Qed.
 
 (* KeyCache._store_key stores through an alias of an inner dictionary: vlib/flow.py refuses it (single-owner semantics), no tie. *)
 End Ties.
+
+(* ---- the default argument values of load_key ----
+   vlib/flow.py regenerates the defaults of the signature as k_flow_keycache_load_key_defaults; evaluated in the world they are
+   (version 1, "SP800_108_CTR_HMAC", None, "DH", None, 512, 2048) - the model's own constants STR_KDF_ALG / STR_DH. *)
+Definition eval_defaults (W : PyAst.world (pv obj)) (l : list (string * pexp)) : list (string * res (pv obj)) :=
+  map (fun xe => (fst xe, let* (v, _) := PyAst.eval W [] (snd xe) in Ok v)) l.
+
+Lemma flow_load_key_defaults c r1 r2 r3 ns dns getkey :
+  eval_defaults (W c r1 r2 r3 ns dns getkey) k_flow_keycache_load_key_defaults
+  = [("version", Ok (VI 1)); ("kdf_algorithm", Ok (VS STR_KDF_ALG)); ("kdf_parameters", Ok VN);
+     ("secret_algorithm", Ok (VS STR_DH)); ("secret_parameters", Ok VN);
+     ("private_key_length", Ok (VI 512)); ("public_key_length", Ok (VI 2048))].
+Proof. reflexivity. Qed.
+
+(* the RootKey `cache.load_key(key, root_key_id)` stores.  Model/Client.v has no function for load_key's default filling (cc_load
+   takes the finished RootKey; the correspondence harness vlib/e2e.py reads the stored RootKey back from cache._root_keys after
+   the real load_key and hands THAT to cc_load, so the model runs on what load_key stored).  The example root keys of the
+   C01 / C05 proofs (Proofs/C01.v ex_rk, Proofs/C05Keys.v ex_rk) are this record with rk_kdf_params the same
+   KDFParameters_pack "SHA512" but rk_secret_params := None: a RootKey(...) built directly, which load_key itself never
+   stores for secret_algorithm "DH" (it fills in the RFC 5114 parameters).  cc_get_key maps None and b"" alike to b"", so
+   those examples exercise the same paths with an empty secret_parameters field in the envelope. *)
+Lemma load_key_root_defaults key :
+  load_key_root key 1 STR_KDF_ALG None STR_DH None 512 2048
+  = (let* kp := KDFParameters_pack (ascii_str "SHA512") in
+     let* sp := FFCDHParameters_pack default_dh_params in
+     Ok {| rk_key := key; rk_version := 1; rk_kdf_alg := STR_KDF_ALG; rk_kdf_params := kp; rk_secret_alg := STR_DH;
+           rk_secret_params := Some sp; rk_priv_len := 512; rk_pub_len := 2048 |}).
+Proof. reflexivity. Qed.
+
+(* load_key(key, root_key_id) with every other argument at its default *)
+Lemma flow_keycache_load_key_default_call c r1 r2 r3 ns dns getkey fuel cc key rkid :
+  self_after (run_mut (MW c r1 r2 r3 ns dns getkey) fuel k_flow_keycache_load_key
+                [VO (OCache cc); VB key; VB rkid; VI 1; VS STR_KDF_ALG; VN; VS STR_DH; VN; VI 512; VI 2048])
+  = (let* rk := load_key_root key 1 STR_KDF_ALG None STR_DH None 512 2048 in Ok (VN, VO (OCache (cc_load cc rkid rk)))).
+Proof. exact (flow_keycache_load_key c r1 r2 r3 ns dns getkey fuel cc key rkid 1 STR_KDF_ALG None STR_DH None 512 2048). Qed.
